@@ -81,6 +81,10 @@ def inlines(cfg, depth=None, inlink=False, max_n=4, allow=None):
         opts.append(st.sampled_from(['dq', 'sq', 'apos', 'en', 'em', 'ell']).map(lambda c: ['smart', c]))
     if 'fnref' in kinds and not inlink:
         opts.append(st.integers(0, 5).map(lambda i: ['fnref', 'fn%d' % i]))
+    if 'cite' in kinds and not inlink:
+        opts.append(st.integers(0, 2).map(lambda i: ['cite', 'c%d' % i]))
+    if 'gloss' in kinds and not inlink:
+        opts.append(st.integers(0, 2).map(lambda i: ['gloss', 'term%d' % i]))
     if 'ifn' in kinds and not inlink:
         opts.append(text(cfg, 3).map(lambda t: ['ifn', t[1]]))
     if 'imath' in kinds:
@@ -202,10 +206,13 @@ def finish(doc):
     """Collect footnote definitions for every reference used (each defined once)."""
     used = []
     rids = []
+    xdefs = []
     def walk_inl(xs):
         for x in xs:
             if x[0] == 'fnref' and x[1] not in used:
                 used.append(x[1])
+            if x[0] in ('cite', 'gloss') and (x[0], x[1]) not in xdefs:
+                xdefs.append((x[0], x[1]))
             if x[0] == 'reflink':
                 if x[3].lower() not in [r.lower() for r in rids]:
                     rids.append(x[3])
@@ -239,6 +246,8 @@ def finish(doc):
     doc['notes'] = [[f, 'note text %s' % f] for f in used]
     if rids:
         doc['defs'] = [ref_def(r) for r in rids]
+    if xdefs:
+        doc['xdefs'] = ['[#%s]: Author %s. *Book %s*. 2020.' % (i, i, i) if k == 'cite' else '[?%s]: definition of %s' % (i, i) for k, i in xdefs]
     return doc
 
 
@@ -284,6 +293,10 @@ def ser_inl(xs):
             parts.append(x[1])
         elif k == 'smart':
             parts.append(SMART_SRC[x[1]])
+        elif k == 'cite':
+            parts.append('cited[#' + x[1] + ']')
+        elif k == 'gloss':
+            parts.append('[?' + x[1] + ']')
         elif k == 'fnref':
             parts.append('note[^' + x[1] + ']')
         elif k == 'ifn':
@@ -372,6 +385,8 @@ def ser_body(doc):
         out.append('[' + rid + ']: ' + url + (' ' + q + title + close if title else ''))
     for fid, t in doc.get('notes', []):
         out.append('[^' + fid + ']: ' + t)
+    for line in doc.get('xdefs', []):
+        out.append(line)
     return '\n\n'.join(out) + ('\n' if doc.get('final_nl', True) else '')
 
 
